@@ -414,6 +414,7 @@ fn reach_wanted(id: &str) -> &'static [&'static str] {
         "C13" => &[
             "cycle_week_minus_1s", "cycle_at_week", "cycle_week_plus_1s", "cycle_ok", "second_cycle_same_second",
             "cycle_with_pending_fee", "fee_in_usdc", "fee_in_juno", "cycle_in_week_second_but_less_than_a_week",
+            "carried_fee_in_other_denom_at_purchase",
         ],
         "C14" => &[
             "register_ok", "update_ok", "remove_ok", "partial_update_ok", "refused_reg_cooldown", "refused_reg_not_admin",
